@@ -9,6 +9,8 @@ direct oracle : generated programs with up to 4 functions (0-3 parameters, optio
                 Plus evaluate_expression cases where locals/globals shadow built-in aliases.
 correspondence: the Coq interpreter model against the implementation on the same programs (those that stay inside the modelled library).
 """
+import re
+
 from . import core, interp, refinterp
 
 PID = 'C04'
@@ -178,7 +180,7 @@ def run(tier):
     for text, g in seeds:
         cases.append({'text': text, 'globals': g, 'max': 2000, 'want_model': True})
         meta.append('seed')
-    n = 500 if tier == 'quick' else 6000
+    n = 900 if tier == 'quick' else 6000
     for _ in range(n):
         pool = interp.Pool()
         cases.append({'text': Gen(r).program(), 'globals': host_config(r, pool), 'max': 250, 'want_model': True})
@@ -241,7 +243,10 @@ def run(tier):
 
     corr_n = declined = 0
     if model_ok:
-        idx = [i for i, m in enumerate(meta) if m in ('seed', 'program') and 'model' in impl[i] and 'host' not in impl[i]]
+        # systemPartial / arraySort are outside the modelled library (the model would decline): those programs are decided by the
+        # reference interpreter above; the correspondence budget goes to programs the model can run
+        idx = [i for i, m in enumerate(meta) if m in ('seed', 'program') and 'model' in impl[i] and 'host' not in impl[i]
+               and (i < 6 or not re.search(r'systemPartial|arraySort', cases[i]['text']))]
         budget = 350 if tier == 'quick' else 3000
         if len(idx) > budget:
             idx = idx[:6] + sorted(r.sample(idx[6:], budget - 6))
